@@ -20,6 +20,7 @@ import (
 	"verif/internal/fault"
 	"verif/internal/keys"
 	"verif/internal/mon"
+	"verif/internal/refdev"
 	"verif/internal/refguid"
 )
 
@@ -390,9 +391,80 @@ func checkC11(r *mon.Run) {
 	r.Floor("reads_short_or_absent_rejected", 100)
 }
 
+// c11TypedReads: every typed accessor against stored masks that lack one required attribute
+// (must be the wrong-attributes error) and masks that hold them all (must succeed).
+func c11TypedReads(r *mon.Run) {
+	dbBytes := c12db(2, 5).Bytes()
+	lo, _ := refdev.LoadOption{Attributes: 1, Description: "typed"}.Encode()
+	type acc struct {
+		name  string
+		v     efivar.Efivar
+		value []byte
+		call  func(e *efivarfs.Efivarfs) error
+	}
+	accs := []acc{
+		{"GetPK", efivar.PK, dbBytes, func(e *efivarfs.Efivarfs) error { _, err := e.GetPK(); return err }},
+		{"GetKEK", efivar.KEK, dbBytes, func(e *efivarfs.Efivarfs) error { _, err := e.GetKEK(); return err }},
+		{"Getdb", efivar.Db, dbBytes, func(e *efivarfs.Efivarfs) error { _, err := e.Getdb(); return err }},
+		{"Getdbx", efivar.Dbx, dbBytes, func(e *efivarfs.Efivarfs) error { _, err := e.Getdbx(); return err }},
+		{"GetSetupMode", efivar.SetupMode, []byte{1}, func(e *efivarfs.Efivarfs) error { _, err := e.GetSetupMode(); return err }},
+		{"GetSecureBoot", efivar.SecureBoot, []byte{1}, func(e *efivarfs.Efivarfs) error { _, err := e.GetSecureBoot(); return err }},
+		{"GetLoaderEntrySelected", efivar.LoaderEntrySelected, util.MarshalUtf16Var("entry.conf"), func(e *efivarfs.Efivarfs) error { _, err := e.GetLoaderEntrySelected(); return err }},
+	}
+	rng := mon.Rand(r.Seed, "C11", "bootnums")
+	nums := []int{0, 1, 0x000A, 0x0FFF, 0x1000, 0x1FFF, 0x2000, 0x2001, 0x2002, 0x2003, 0x2ABC, 0x2FFF, 0x3000, 0x7FFF, 0x8000, 0xABCD, 0xFFFF}
+	for k := 0; k < r.N(100, 3000); k++ {
+		nums = append(nums, rng.Intn(65536))
+	}
+	for _, n := range nums {
+		name := bootName(n)
+		v := efivar.BootEntry
+		v.Name = name
+		accs = append(accs, acc{"GetBootEntry", v, lo, func(e *efivarfs.Efivarfs) error { _, err := e.GetBootEntry(name); return err }})
+	}
+	for _, a := range accs {
+		req := uint32(a.v.Attributes)
+		masks := []uint32{req, req | 0x80, req | 0x08}
+		for b := uint(0); b < 8; b++ {
+			if req&(1<<b) != 0 {
+				masks = append(masks, req&^(1<<b))
+			}
+		}
+		masks = append(masks, 0)
+		for _, m := range masks {
+			mem := afero.NewMemMapFs()
+			path := varPath(a.v.Name, fromLib(*a.v.GUID).Text())
+			mem.MkdirAll(efivarsDir, 0o755)
+			afero.WriteFile(mem, path, withAttrs(m, a.value), 0o644)
+			e := efivarfs.NewFS()
+			e.SetFS(mem)
+			var err error
+			replay := map[string]any{"accessor": a.name, "variable": a.v.Name, "stored_mask": m, "required": req}
+			if p := tryP(func() { err = a.call(e.Open()) }); p != "" {
+				r.Violation("C11|typed-read|panic|"+a.name, p, replay)
+				continue
+			}
+			r.Eval(1)
+			lacking := req&^m != 0
+			switch {
+			case lacking && !errors.Is(err, efivarfs.ErrIncorrectAttributes):
+				r.Violation("C11|typed-read|missing-attribute-not-reported|"+a.name, fmt.Sprintf("%s(%s): stored mask %#x lacks required %#x but the accessor returned err=%v", a.name, a.v.Name, m, req, err), replay)
+			case !lacking && err != nil:
+				r.Violation("C11|typed-read|valid-read-failed|"+a.name, fmt.Sprintf("%s(%s): stored mask %#x ⊇ required %#x but the accessor failed: %v", a.name, a.v.Name, m, req, err), replay)
+			case lacking:
+				r.Count("typed_reads_wrong_attributes_rejected", 1)
+			default:
+				r.Count("typed_reads_ok", 1)
+			}
+		}
+		r.Distinct("typed-read|" + a.name + "|" + a.v.Name)
+	}
+}
+
 // c11Typed drives the typed accessors and the legacy efi.* twins once per definition.
 func c11Typed(r *mon.Run) {
 	useFakeEfivarsDir()
+	c11TypedReads(r)
 	db := c12db(2, 7)
 	for _, v := range []efivar.Efivar{efivar.PK, efivar.KEK, efivar.Db, efivar.Dbx} {
 		mem := afero.NewMemMapFs()
